@@ -99,9 +99,12 @@ def ms_pair_matches_key(self, pair, key, is_compressed):
 
 
 # pycoin/contrib/msg_signing.py :: MessageSigner.verify_message
+# pycoin/contrib/msg_signing.py :: MessageSigner.verify_message
 def ms_verify_message(self, key_or_address, signature, message=None, msg_hash=None):
     if isinstance(key_or_address, str):
         key = self._network.parse.address(key_or_address)
+        if key is None:
+            return False
     else:
         key = key_or_address
     try:
@@ -145,8 +148,12 @@ def ms_hash_for_signing(self, msg):
 
 
 # pycoin/ecdsa/Generator.py :: Generator.possible_public_pairs_for_signature
+# pycoin/ecdsa/Generator.py :: Generator.possible_public_pairs_for_signature
 def gen_possible_public_pairs(self, value, signature, y_parity=None):
     r, s = signature
+    order = self._order
+    if value == 0 or s < 1 or s >= order or (r % order == 0):
+        return []
     try:
         points = self.points_for_x(r)
     except ValueError:
